@@ -15,6 +15,8 @@ from nutree import AmbiguousMatchError, Node
 
 ID = "C09"
 LEVEL = "exploration"
+TECHNIQUE = 'property-based testing; direct re.fullmatch / scan recomputation for every start, pattern and limit'
+LEVEL_TEXT = 'exploration: generated trees with clones / explicit and colliding ids; per tree every start x fixed pattern grammar x limits, all data / data_id lookups and every index-access key kind are recomputed directly'
 RULE = (
     "case = tree spec with clones, multi-character / mixed-case / int labels, explicit str and int data_ids and "
     "explicit int node_ids that may collide with another node's data_id. Per case, for EVERY start (tree, each node, "
